@@ -61,7 +61,7 @@ func c17AzGen(t *rapid.T) c17AzCase {
 	return c17AzCase{
 		Entry:  rapid.SampledFrom([]string{"introspect", "introspect", "bearer"}).Draw(t, "entry"),
 		Source: rapid.SampledFrom(c17AzSources).Draw(t, "source"),
-		V:      jose.Gen(t, jose.GenOpts{Near: true}),
+		V:      jose.Gen(t, jose.GenOpts{Near: true, JWKMeta: true}),
 	}
 }
 
@@ -81,7 +81,7 @@ func (r *c17AzDIDResolver) Resolve(id did.DID, _ *resolver.ResolveMetadata) (*di
 }
 
 // add registers key under kid in the document of the DID kid parses to; an existing document is never extended.
-func (r *c17AzDIDResolver) add(kid string, key crypto.PublicKey) {
+func (r *c17AzDIDResolver) add(kid string, key crypto.PublicKey, meta map[string]string) {
 	id, err := did.ParseDIDURL(kid)
 	if err != nil || id.DID.Empty() {
 		return
@@ -92,6 +92,14 @@ func (r *c17AzDIDResolver) add(kid string, key crypto.PublicKey) {
 	vm, err := did.NewVerificationMethod(*id, ssi.JsonWebKey2020, id.DID, key)
 	if err != nil {
 		return
+	}
+	// what the JsonWebKey2020 verification method announces about the key is written by the owner of the document
+	for k, v := range meta {
+		if k == "key_ops" {
+			vm.PublicKeyJwk[k] = []interface{}{v}
+		} else {
+			vm.PublicKeyJwk[k] = v
+		}
 	}
 	doc := &did.Document{ID: id.DID}
 	doc.AddAssertionMethod(vm)
@@ -145,14 +153,18 @@ func c17AzRun(x *h.Ctx, c c17AzCase) {
 	w.Kids = map[string]string{jose.Victim: victimDID + "#key-1", jose.Attacker: jose.NearKid(victimDID, c17AzForeignDID, "key-1", c.V.Near),
 		"unknown": "did:nuts:B8PUHs2AUHbFF1xLLK4eZjgErEcMXHxs68FteY7NDtCY#key-1"}
 	b := jose.Build(w, c.V)
+	var meta map[string]string
+	if len(b.F.Sigs) == 1 {
+		meta = b.F.Sigs[0].JWKExtra
+	}
 
 	// key sources
 	dids := &c17AzDIDResolver{docs: map[string]*did.Document{}, fail: source == "resolve-error"}
-	dids.add(w.Kids[jose.Victim], keys[jose.Victim].Public())
+	dids.add(w.Kids[jose.Victim], keys[jose.Victim].Public(), meta)
 	if entry == "bearer" {
-		dids.add(nodeKid, nodeKey.Public())
+		dids.add(nodeKid, nodeKey.Public(), meta)
 	}
-	dids.add(w.Kids[jose.Attacker], keys[jose.Attacker].Public())
+	dids.add(w.Kids[jose.Attacker], keys[jose.Attacker].Public(), meta)
 	if c.V.Near != "" {
 		_, rerr := (resolver.DIDKeyResolver{Resolver: &c17AzDIDResolver{docs: dids.docs}}).ResolveKeyByID(w.Kids[jose.Attacker], nil, resolver.NutsSigningKeyType)
 		x.Classf("near-fixture:%s:attacker-key-resolvable=%v", c.V.Near, rerr == nil)
